@@ -343,6 +343,7 @@ def C10(tier):
     jobs += [hj("h_apply", 5 * m, first=2000, ncpu=1, scale=30), hj("h_apply", 6 * m, first=2100, ncpu=2, scale=50), hj("h_apply", 6 * m, first=2200, ncpu=4),
              hj("h_apply", 6 * m, first=2300, ncpu=8)]
     jobs += [hj("h_apply", 4 * m, first=3000, flavor="asan", scale=25, timeout=600), hj("h_apply", 3 * m, first=3100, flavor="asan", scale=25, ncpu=2, timeout=600)]
+    jobs += [hj("h_apply", 3 * m, first=6000, flavor="tsan", scale=20, timeout=900, perturb="uniform")]
     if tier == "thorough":
         for t in jobs:
             t.timeout = 1800
@@ -374,6 +375,8 @@ def C19(tier):
     jobs += [hj("h_block", 6 * m, first=2500, mode="window")]
     jobs += [hj("h_block", 4 * m, first=3000, flavor="asan", scale=30, timeout=600), hj("h_block", 3 * m, first=3100, flavor="asan", mode="window", timeout=600)]
     jobs += [hj("h_block", 6 * m, first=5000, extra=["--sigstorm=2000"])]
+    # the body's plain writes are read by waiters / notification blocks / the checker: ThreadSanitizer decides the edge
+    jobs += [hj("h_block", 4 * m, first=6000, flavor="tsan", scale=30, timeout=900, perturb="uniform")]
     if tier == "thorough":
         for t in jobs:
             t.timeout = 1800
